@@ -84,7 +84,7 @@ var whitelist = []unitSpec{
 	// table (Go map) + ordering (abstract doubly linked list); Iterator() is an abstract enumeration
 	{GoFile: "sets/linkedhashset/linkedhashset.go", Module: "LinkedHashSetGen", Skip: enumSkip, ExtraFiles: []string{"sets/linkedhashset/enumerable.go", "sets/linkedhashset/serialization.go"},
 		Abstract: dllOrdering},
-	{GoFile: "maps/linkedhashmap/linkedhashmap.go", Module: "LinkedHashMapGen", Skip: enumSkip, ExtraFiles: []string{"maps/linkedhashmap/enumerable.go"},
+	{GoFile: "maps/linkedhashmap/linkedhashmap.go", Module: "LinkedHashMapGen", Skip: lhmSkip, ExtraFiles: []string{"maps/linkedhashmap/enumerable.go", "maps/linkedhashmap/serialization.go"},
 		Abstract: dllOrdering},
 	// red-black tree wrappers: the tree is an abstract interface (instantiated with the machine's model of it)
 	{GoFile: "maps/treemap/treemap.go", Module: "TreeMapGen", Skip: enumSkip, ExtraFiles: []string{"maps/treemap/enumerable.go", "maps/treemap/serialization.go"}, Abstract: rbtAbs},
@@ -157,7 +157,12 @@ var treeSkip = map[string]string{"String": skipFmt, "output": skipFmt,
 	"Values": "fills a slice through an iterator object; the walk itself is Iterator.Next, which is translated"}
 
 // the AVL write path (Put / Remove on **Node) is translated: treelink.go
-var avlSkip = map[string]string{"String": skipFmt, "output": skipFmt, "Keys": treeSkip["Keys"], "Values": treeSkip["Values"]}
+var avlSkip = map[string]string{"String": skipFmt, "output": skipFmt} // Keys / Values are translated (a slice filled through a local iterator object)
 
 // the red-black unit translates Keys / Values too (a local iterator record built from the receiver, a slice made by the function)
 var rbTreeSkip = map[string]string{"String": skipFmt, "output": skipFmt}
+
+// maps/linkedhashmap/serialization.go: the encoder half (ToJSON, MarshalJSON) is translated (bytesbuf.go); the decoder reads a token stream
+const skipDecoder = "hand-written token decoder (json.NewDecoder, Token, More, RawMessage, a string concatenation fed to json.Unmarshal): not modelled"
+
+var lhmSkip = map[string]string{"String": enumSkip["String"], "Each": enumSkip["Each"], "FromJSON": skipDecoder, "UnmarshalJSON": "calls the untranslated FromJSON"}
